@@ -206,7 +206,32 @@ func (vc *VC) instr(fr *Frame, st *State, ins ssa.Instruction) {
 	case *ssa.Go:
 		vc.assumed["goroutine spawned in "+vc.eng.funcName(fr.fn)+": its effects after the spawn point are not modelled"] = true
 		vc.havocAll(st, fr.allLocalRoots())
-	case *ssa.Send, *ssa.Select:
+	case *ssa.Select:
+		// which case fires (and what is received) is arbitrary; a blocking select lets other goroutines run
+		vc.assumed["select in "+vc.eng.funcName(fr.fn)+": the chosen case and received values are arbitrary"] = true
+		for _, sst := range t.States {
+			if sst.Dir == types.SendOnly {
+				panic(unsupported("select with a send case"))
+			}
+		}
+		if t.Blocking {
+			vc.havocAll(st, fr.allLocalRoots())
+		}
+		idx := vc.q.Fresh(fr.prefix+"$selidx", SInt)
+		lo := int64(0)
+		if !t.Blocking {
+			lo = -1
+		}
+		vc.q.Assert(And(Le(IntLit(lo), idx), Lt(idx, IntLit(int64(len(t.States))))))
+		tup := []Term{idx, vc.q.Fresh(fr.prefix+"$selok", SBool)}
+		tt := t.Type().(*types.Tuple)
+		for i := 2; i < tt.Len(); i++ {
+			v := vc.q.Fresh(fr.prefix+"$selrecv", vc.sortOf(tt.At(i).Type()))
+			vc.q.Assert(Implies(st.reach, vc.wfAssume(st, v, tt.At(i).Type(), 0)))
+			tup = append(tup, v)
+		}
+		fr.tuples[t] = tup
+	case *ssa.Send:
 		panic(unsupported(fmt.Sprintf("%T in %s", ins, fr.fn)))
 	case *ssa.SliceToArrayPointer:
 		x := vc.val(fr, t.X)
